@@ -891,6 +891,6 @@ RULE = ("one run = one seeded plan (pool class, workers, chunk size, queue bound
 SPECS = {
     "C01": PoolSpec("C01", "single", RULE, 10000, 400000),
     "C02": PoolSpec("C02", "single", RULE, 10000, 400000),
-    "C03": PoolSpec("C03", "multi", RULE, 6000, 300000),
-    "C04": PoolSpec("C04", "lifecycle", RULE, 6000, 300000),
+    "C03": PoolSpec("C03", "multi", RULE, 9000, 300000),
+    "C04": PoolSpec("C04", "lifecycle", RULE, 9000, 300000),
 }
